@@ -8,42 +8,42 @@ import Boario.Gen.NextStep
 namespace Boario.Records
 open Boario.Gen
 
-/-- the statements of `next_step` are exactly these, in this order (regenerated on every run): the
-    event phase, the stocks record, overproduction from the third step on, the four demand records,
-    production, the four production records, then — inside the crash handler — distribution, its two
-    records and the ledger phases, then orders and the increment of the step counter -/
-def expectedSkeleton : List Item := [
+/-- statements that decide the order of the phases: everything but the guarded record writes (whose
+    position is the subject of `writes_after_their_phase`), the defaulting of optional arguments, assignments
+    to local variables and the equilibrium check.  Two writes that follow the same phase may be listed in any
+    order; any other difference is a difference of control. -/
+def isControl : Item → Bool
+  | .write _ _ _ _ _ => false
+  | .defaultArg _ => false
+  | .assign _ => false          -- local variables only: the translator emits assignments to attributes as `.unknown`
+  | .equilibriumCheck => false
+  | _ => true
+
+/-- the control skeleton of `next_step` (regenerated on every run): the event phase, overproduction
+    from the third step on, production, then — inside the crash handler — distribution and the ledger
+    phases, then orders and the increment of the step counter -/
+def expectedControl : List Item := [
   .tryBegin,
-  .defaultArg "min_steps_check",
-  .defaultArg "min_failing_regions",
   .call "self._check_happening_events",
-  .write "_inputs_evolution" "self._files_to_record" "_inputs_evolution" "self._vars_to_record" "self._write_stocks",
   .ifStepGt 1 "self.model.calc_overproduction",
-  .write "_overproduction_evolution" "self._files_to_record" "_overproduction_evolution" "self._vars_to_record" "self._write_overproduction",
-  .write "_rebuild_demand_evolution" "self._files_to_record" "_rebuild_demand_evolution" "self._vars_to_record" "self._write_rebuild_demand",
-  .write "_final_demand_evolution" "self._files_to_record" "_final_demand_evolution" "self._vars_to_record" "self._write_final_demand",
-  .write "_io_demand_evolution" "self._files_to_record" "_io_demand_evolution" "self._vars_to_record" "self._write_io_demand",
   .call "self.model.calc_production",
-  .write "_limiting_inputs_evolution" "self._files_to_record" "_limiting_inputs_evolution" "self._vars_to_record" "self._write_limiting_stocks",
-  .write "_production_evolution" "self._files_to_record" "_production_evolution" "self._vars_to_record" "self._write_production",
-  .write "_production_cap_evolution" "self._files_to_record" "_production_cap_evolution" "self._vars_to_record" "self._write_production_max",
-  .write "_regional_sectoral_productive_capital_destroyed_evolution" "self._files_to_record" "_regional_sectoral_productive_capital_destroyed_evolution" "self._vars_to_record" "self._write_productive_capital_lost",
   .tryBegin,
   .call "self.model.distribute_production",
-  .write "_final_demand_unmet_evolution" "self._files_to_record" "_final_demand_unmet_evolution" "self._vars_to_record" "self._write_final_demand_unmet",
-  .write "_rebuild_production_evolution" "self._files_to_record" "_rebuild_production_evolution" "self._vars_to_record" "self._write_rebuild_prod",
   .call "self.rebuild_events",
   .call "self.recover_events",
   .tryEnd "RuntimeError" "1",
   .call "self.model.calc_orders",
-  .assign "n_checks",
-  .equilibriumCheck,
   .incr "self.current_temporal_unit" "self.model.n_temporal_units_by_step",
   .ret "0",
   .tryEnd "Exception" "raise"
 ]
 
-theorem phase_order : nextStepSkeleton = expectedSkeleton := by
-  rfl
+theorem phase_order : nextStepSkeleton.filter isControl = expectedControl := by
+  decide
+
+/-- one guarded write per record, no more -/
+theorem one_write_per_record :
+    (nextStepSkeleton.filter fun i => match i with | .write _ _ _ _ _ => true | _ => false).length = 11 := by
+  decide
 
 end Boario.Records
